@@ -160,7 +160,7 @@ func NewMachine(c *gen.Case, r *rec.Recorder, o Opts) (*am.Machine, *InitJ, erro
 	}
 	if c.On {
 		for i, b := range c.Binds {
-			if err := r.Bind(m, i+1, b); err != nil {
+			if err := r.BindForm(m, i+1, b); err != nil {
 				return nil, nil, err
 			}
 		}
